@@ -3,14 +3,16 @@
 One stream, C02.hist: a history of public API calls on a cfdm.Field (and on its live
 domain view f.domain).  After every operation the harness abstracts the live object
 (through public accessors only) into the model's state and records ok/rejected; the
-Lean model (the container with the proposed patches `P`, and as coded `O`) replays the
-same operation list from the same abstract start state.  Identifiers that cfdm generated
+Lean model (`P`: the container as coded at /repo HEAD) replays the same operation list from the same
+abstract start state.  Identifiers that cfdm generated
 are referred to by creation order (`#i` = key returned by operation i), so the operation
 list and the compared states do not depend on how new identifiers are spelled.
 
 The oracle evaluates the invariant of the property directly on the live object after
 every operation, accepted or rejected (and calls repr/str/dump of the field and of its
-domain).
+domain); after a rejected call (other than an in-place deriving call) and, for the receiver, after
+every call that returns a new field, it also demands that the object is literally unchanged: same
+abstract state, the same construct objects under the same identifiers, the same data object.
 """
 import re
 
@@ -37,25 +39,44 @@ REQUIRED = [
     "C02_dangling_cell_method_breaks_inv",
     "C02_dangling_reference_breaks_inv",
     "C02_replace_unchecked_breaks_inv",
+    "C02_direct_mutation_breaks_inv",
+    "C02_seq_refines",
+    "C02_guards_first_atomic",
+    "C02_seq_guards_first",
+    "C02_order_matters",
+    "C02_rejected_unchanged",
+    "C02_inplace_rejected_unchanged",
+    "C02_inplace_needs_inv",
+    "C02_inplace_insert_dimension_leaves_axis",
+    "C02_view_eq_field",
+    "C02_view_hidden_refused",
+    "C02_key_in_use_refused",
+    "C02_inplace_loops_any_order",
+    "C02_inplace_insert_dimension_topology_breaks_inv",
 ]
 BUDGET = {"quick": 2400, "thorough": 30000}
 QUICK_JOBS = 4
 RULE = (
-    "random histories (quick: 4-14 ops, thorough: 4-40 ops) of public calls on cfdm.Field / f.domain starting from an empty "
-    "field, example fields 0-3,5-7 or a random valid field: set_construct (every type, also domain topology / cell connectivity; new / same-type key / "
-    "other-type key / key that collides with a later automatic identifier; valid, wrong-shape, missing or unknown axes; through "
-    "the field and through the domain view), del_construct (existing, in use, unknown; both routes), set_data / del_data / "
-    "set_data_axes / del_data_axes (field and per construct), constructs.replace, copy / Field(source=), subspace, squeeze, "
-    "transpose, insert_dimension (with constructs / inplace), convert; ~25% of calls are ones the API must reject. "
+    "random histories (quick: 4-14 ops, thorough: 4-40 ops) of public calls on cfdm.Field and on live views of its constructs "
+    "(f.domain, Domain(source=f, copy=False), Domain.fromconstructs(f.constructs), a view of a view) starting from an empty "
+    "field, example fields 0-3,5-10 (8-10: UGRID, with domain topology / cell connectivity), a random valid field, or on a stand-alone cfdm.Domain (Domain(), f.domain.copy(); container calls only): set_construct (every type; new / same-type key / "
+    "other-type key / key of a construct that the view hides / key that collides with a later automatic identifier / key not of the form <letters><number>; valid, wrong-shape, missing or unknown axes, a single axis as a bare string), "
+    "del_construct (existing, in use by a construct / by a hidden field ancillary / by a cell method / by the field's data, unknown, hidden; every route), set_data in place and inplace=False "
+    "(fitting; transposed; the shape before / after a squeeze; another rank; fitting the old axes but not the given ones; axes=None on a field with data axes), del_data, "
+    "set_data_axes / del_data_axes (field and per construct), constructs.replace, mutators of a contained construct (set_data, del_data, set_bounds, del_bounds, set_size, reached through f.constructs, a shallow copy, "
+    "a filtered collection, f.construct, f.domain), mutations of containers derived from the field (shallow copy, filtered collections and their copies, f.domain.copy(), Domain(source=f), f.copy()), copy / Field(source=) / f[...], subspace, squeeze, "
+    "transpose, insert_dimension (every combination of constructs / inplace), convert (incl. the chain that carries a coordinate reference and its domain ancillaries over); ~25% of calls are ones the API must reject. "
     "non-trivial = history with >= 3 accepted mutating ops; distinct = distinct (start, op list)"
 )
 ASSUMPTIONS = [
     "constructs are abstracted to (type, data/bounds/interior-ring shapes, axis size, named axes/constructs); values and properties play no role in the invariant",
     "a construct handed to set_construct is itself consistent (bounds / interior ring agree with its data on the leading dimensions, which cfdm's own set_bounds enforces)",
-    "direct mutation of a construct object fetched from the field (e.g. DomainAxis.set_size on the contained object) is not a container operation and is outside the histories",
-    "construct identifiers have the standard form <letters><number>",
-    "inplace=True is combined with constructs=True in neither transpose nor insert_dimension (a failure half-way through the loop over constructs depends on dictionary order)",
+    "mutators of a contained construct are generated for constructs with plain data (no geometry, interior ring, domain topology, cell connectivity)",
+    "identifiers not of the form <letters><number> are drawn from a fixed pool; a cell method axis spelled like one of them is an identifier, any other non-standard spelling a free name",
+    "the state left by a REJECTED transpose / insert_dimension with constructs=True and inplace=True depends on the order in which Python walks the dictionaries: the model proves the invariant for every order (C02_inplace_loops_any_order) but cannot predict the state, which is judged by the oracle and ends the history",
     "a field that has data but no data axes (or a construct without data axes) is a partially built state of ab-initio creation, not a violation",
+    "climatology flags (cell methods with within/over qualifiers) and the core-only route cfdm.core.Field.del_construct are not exercised",
+    "a stand-alone Domain is started from Domain() or f.domain.copy(); Domain(source=f) (which keeps the field's data axes in its constructs and therefore refuses to delete axes that the FIELD's data span) is not used as a start",
 ]
 
 _cfdm = None
@@ -76,6 +97,14 @@ SHORT = {v: k for k, v in LONG.items()}
 BASE = {k: v.replace("_", "") for k, v in LONG.items()}
 ARRAY = ("dim", "aux", "msr", "fan", "dan", "top", "con")
 KEYRE = re.compile(r"^([a-z_]*[a-z_])(0|[1-9][0-9]*)$")
+# identifiers that are NOT of the form <letters><number> (legal for set_construct(key=...)); a cell method axis
+# spelled like one of them is an identifier, every other non-standard spelling is a free name
+NONSTD = ("foo", "x.y", "01", "domainaxis01", "Zed", "my")
+
+
+def is_key(a):
+    return bool(KEYRE.match(a)) or a in NONSTD
+
 
 
 # ------------------------------------------------------------------ text forms shared with the Lean driver
@@ -101,7 +130,7 @@ def sh_optkeys(ret, l):
 
 
 def cm_tok(ret, a):
-    return sh_key(ret, a) if KEYRE.match(a) else "~" + a
+    return sh_key(ret, a) if is_key(a) else "~" + a
 
 
 def sh_con(ret, t, k, c, sort=True):
@@ -133,6 +162,11 @@ def sh_state(ret, st, sort=True):
 
 
 # ------------------------------------------------------------------ abstraction of the live object
+def is_domain(f):
+    """a stand-alone cfdm.Domain (not a field): no data, no cell methods / field ancillaries"""
+    return isinstance(f, cfdm().Domain)
+
+
 def abstract(f):
     """The model's state, read through public accessors only."""
     cons = {}
@@ -158,6 +192,8 @@ def abstract(f):
                 cons[(t, k)] = blank(data=d, bounds=b, geom=g, ring=r)
     types = {k: SHORT[t] for k, t in f.constructs.construct_types().items()}
     axes = {k: list(v) for k, v in f.constructs.data_axes().items()}
+    if is_domain(f):
+        return dict(cons=cons, types=types, axes=axes, data=None, daxes=None)
     data = tuple(f.data.shape) if f.has_data() else None
     da = f.get_data_axes(default=None)
     return dict(cons=cons, types=types, axes=axes, data=data, daxes=None if da is None else list(da))
@@ -234,7 +270,10 @@ def invariant(f):
             for name, shp in parts:
                 if shp != want:
                     return f"construct {k} {name} shape {shp} != sizes of its axes {want}"
-        fda = f.get_data_axes(default=None)
+        for k in types:
+            if bool(f.has_data_axes(k)) != (k in f.constructs.data_axes()):
+                return f"has_data_axes({k}) disagrees with constructs.data_axes()"
+        fda = None if is_domain(f) else f.get_data_axes(default=None)
         if fda is not None:
             for a in fda:
                 if a not in sizes:
@@ -245,7 +284,7 @@ def invariant(f):
             if t == "cm":
                 for a in objs[k].get_axes(()):
                     # an axis given as a construct identifier (<letters><number>) is a reference; free names are not
-                    if KEYRE.match(a) and a not in sizes:
+                    if is_key(a) and a not in sizes:
                         return f"cell method {k} names non-existent axis {a}"
             if t == "ref":
                 r = objs[k]
@@ -255,7 +294,12 @@ def invariant(f):
                 for term, v in r.coordinate_conversion.domain_ancillaries().items():
                     if v is not None and types.get(v) != "dan":
                         return f"coordinate reference {k} term {term} names non-existent domain ancillary {v}"
-        dom = f.domain
+        if is_domain(f):
+            if any(t in ("cm", "fan") for t in types.values()):
+                return "a domain holds a cell method / field ancillary"
+            dom = cfdm().Domain(source=f, copy=False)
+        else:
+            dom = f.domain
         dk = set(dom.constructs.todict())
         fk = {k for k, t in types.items() if t not in ("cm", "fan")}
         if dk != fk:
@@ -268,9 +312,11 @@ def invariant(f):
             return "domain view sees other data axes than the field"
     except Exception as e:
         return "inspecting the constructs raised " + repr(e)[:150]
-    for name, fn in (("repr", lambda: repr(f)), ("str", lambda: str(f)), ("dump", lambda: f.dump(display=False)),
-                     ("repr(domain)", lambda: repr(f.domain)), ("str(domain)", lambda: str(f.domain)),
-                     ("dump(domain)", lambda: f.domain.dump(display=False))):
+    checks = [("repr", lambda: repr(f)), ("str", lambda: str(f)), ("dump", lambda: f.dump(display=False))]
+    if not is_domain(f):
+        checks += [("repr(domain)", lambda: repr(f.domain)), ("str(domain)", lambda: str(f.domain)),
+                   ("dump(domain)", lambda: f.domain.dump(display=False))]
+    for name, fn in checks:
         try:
             fn()
         except Exception as e:
@@ -310,6 +356,111 @@ def mk_construct(t, c):
     return x
 
 
+VIEWS = ("d", "s", "c", "v")
+# Scale of the argument choices that end a history in an OPEN finding (a history stops at its first violation):
+# 1 for the short histories of the quick tier, smaller for long ones, so that the share of histories that end
+# in a known finding stays small in every tier
+RISK = 1.0
+
+
+def ax_arg(axes):
+    """a single axis is handed over as a bare string when its identifier ends with an odd digit
+    (the API accepts `axes='domainaxis1'`; deterministic, so that replays take the same route)"""
+    if axes is not None and len(axes) == 1 and axes[0][-1:] in "13579":
+        return axes[0]
+    return axes
+
+
+def target(f, via):
+    """the object a call is issued through: the field or one of the live views of its constructs"""
+    C = cfdm()
+    if via == "f":
+        return f
+    if via == "d":
+        return f if is_domain(f) else f.domain
+    if via == "s":
+        return C.Domain(source=f, copy=False)
+    if via == "c":
+        return C.Domain.fromconstructs(f.constructs)
+    if via == "v":
+        return C.Domain(source=C.Domain(source=f, copy=False) if is_domain(f) else f.domain, copy=False)
+    raise fw.HarnessError("unknown route " + repr(via))
+
+
+def contained(f, key, how):
+    """the construct object that the field holds under `key`, reached in one of several public ways"""
+    if how == 0:
+        return f.constructs[key]
+    if how == 1:
+        return f.constructs.shallow_copy()[key]
+    if how == 2:
+        return f.constructs.filter_by_key(key).value()
+    if how == 3:
+        return f.construct(key)
+    c = (f if is_domain(f) else f.domain).constructs.get(key)
+    return c if c is not None else f.constructs[key]
+
+
+def frame_action(f, variant, rng):
+    """mutate a container that was derived from the field and has dictionaries of its own"""
+    C = cfdm()
+    keys = sorted(f.constructs.todict())
+
+    def derive(fn):
+        # a field holding a construct that cannot be copied (bounds without an extra dimension after a direct
+        # mutation, ...) has no copies: then there is nothing to mutate
+        try:
+            return fn()
+        except Exception:
+            return None
+
+    if is_domain(f) and variant >= 2:
+        d = derive(lambda: f.copy() if variant < 4 else C.Domain(source=f))
+        if d is None:
+            return
+        d.set_construct(C.DomainAxis(93))
+        for k in sorted(d.constructs.filter_by_type("dimension_coordinate", "auxiliary_coordinate", "cell_measure", todict=True))[:2]:
+            d.del_construct(k)
+        return
+    if variant == 0:
+        g = f.constructs.shallow_copy()
+        for k in keys[:2]:
+            g.replace(k, g[k], axes=["domainaxis0", "domainaxis0"], copy=False)
+    elif variant == 1:
+        g = f.constructs.filter_by_type("auxiliary_coordinate", "dimension_coordinate", "domain_axis")
+        h = derive(lambda: g.copy())
+        for k in sorted(g.todict())[:2]:
+            g.replace(k, g[k], axes=["domainaxis9"], copy=False)
+            if h is not None:
+                h.replace(k, h[k], axes=[], copy=False)
+        g = f.constructs.filter_by_type("field_ancillary").inverse_filter()
+        for k in sorted(g.todict())[:1]:
+            g.replace(k, g[k], axes=["domainaxis0"], copy=False)
+    elif variant == 2:
+        d = derive(lambda: f.domain.copy())
+        if d is None:
+            return
+        for k in sorted(d.constructs.filter_by_type("dimension_coordinate", "auxiliary_coordinate", todict=True))[:2]:
+            d.del_construct(k)
+        d.set_construct(C.DomainAxis(96))
+    elif variant == 3:
+        d = derive(lambda: C.Domain(source=f))
+        if d is None:
+            return
+        d.set_construct(C.DomainAxis(95))
+        for k in sorted(d.constructs.filter_by_type("domain_ancillary", "cell_measure", todict=True))[:1]:
+            d.del_construct(k)
+    else:
+        g = derive(lambda: f.copy())
+        if g is None:
+            return
+        g.set_construct(C.DomainAxis(94))
+        if g.has_data():
+            g.del_data()
+        for k in sorted(g.constructs.filter_by_type("cell_method", "field_ancillary", "coordinate_reference", todict=True))[:2]:
+            g.del_construct(k)
+
+
 def apply_op(f, op):
     """Apply one op (literal keys) to the live field.  Returns (f', 'ok'|'rej', returned key or None, exception name)."""
     C = cfdm()
@@ -317,35 +468,58 @@ def apply_op(f, op):
     try:
         if kind == "setc":  # ("setc", via, t, con, key|None, axes|None)
             _, via, t, c, key, axes = op
-            tgt = f if via == "f" else f.domain
-            k = tgt.set_construct(mk_construct(t, c), key=key, axes=axes)
+            k = target(f, via).set_construct(mk_construct(t, c), key=key, axes=ax_arg(axes))
             return f, "ok", k, None
         if kind == "delc":
-            (f if op[1] == "f" else f.domain).del_construct(op[2])
+            target(f, op[1]).del_construct(op[2])
             return f, "ok", None, None
         if kind == "setd":
-            f.set_data(C.Data(np.zeros(op[1])), axes=op[2])
+            f.set_data(C.Data(np.zeros(op[1])), axes=ax_arg(op[2]))
+            return f, "ok", None, None
+        if kind == "setdn":
+            g = f.set_data(C.Data(np.zeros(op[1])), axes=ax_arg(op[2]), inplace=False)
+            return g, "ok", None, None
+        if kind == "frame":
+            frame_action(f, op[1], None)
+            return f, "ok", None, None
+        if kind == "mut":  # ("mut", key, what, arg, how)
+            _, key, what, arg, how = op
+            if key not in f.constructs.todict():
+                raise ValueError("no such construct")
+            c = contained(f, key, how)
+            if what == "data":
+                c.set_data(C.Data(np.zeros(arg)))
+            elif what == "deldata":
+                c.del_data()
+            elif what == "bounds":
+                c.set_bounds(C.Bounds(data=C.Data(np.zeros(arg))))
+            elif what == "delbounds":
+                c.del_bounds()
+            elif what == "size":
+                c.set_size(arg)
+            else:
+                raise fw.HarnessError("unknown mutator " + repr(what))
             return f, "ok", None, None
         if kind == "deld":
             f.del_data()
             return f, "ok", None, None
         if kind == "setda":
-            f.set_data_axes(op[1])
+            f.set_data_axes(ax_arg(op[1]))
             return f, "ok", None, None
         if kind == "setdak":
-            (f if op[1] == "f" else f.domain).set_data_axes(op[2], key=op[3])
+            target(f, op[1]).set_data_axes(ax_arg(op[2]), key=op[3])
             return f, "ok", None, None
         if kind == "delda":
             f.del_data_axes()
             return f, "ok", None, None
         if kind == "deldak":
-            (f if op[1] == "f" else f.domain).del_data_axes(op[2])
+            target(f, op[1]).del_data_axes(op[2])
             return f, "ok", None, None
         if kind == "replace":  # ("replace", key, t, con, axes)
             f.constructs.replace(op[1], mk_construct(op[2], op[3]), axes=op[4])
             return f, "ok", None, None
         if kind == "copy":
-            return (f.copy() if op[1] == 0 else type(f)(source=f)), "ok", None, None
+            return (f.copy() if op[1] == 0 or (op[1] == 2 and is_domain(f)) else type(f)(source=f) if op[1] == 1 else f[...]), "ok", None, None
         if kind == "sub":
             return f[tuple(slice(a, b) for a, b in op[1])], "ok", None, None
         if kind == "squeeze":
@@ -359,6 +533,8 @@ def apply_op(f, op):
             return (f if op[4] else g), "ok", None, None
         if kind == "convert":
             return f.convert(op[1], full_domain=op[2]), "ok", None, None
+    except fw.HarnessError:
+        raise
     except Exception as e:
         return f, "rej", None, fw.exc_enum(e)
     raise fw.HarnessError("unknown op " + repr(op))
@@ -374,6 +550,13 @@ def enc_op(op, ret):
         return f"delc:{op[1]}:{sh_key(ret, op[2])}"
     if k == "setd":
         return f"setd:{sh_shape(op[1])}:{sh_optkeys(ret, op[2])}"
+    if k == "setdn":
+        return f"setdn:{sh_shape(op[1])}:{sh_optkeys(ret, op[2])}"
+    if k == "frame":
+        return f"frame@{op[1]}"
+    if k == "mut":
+        arg = "_" if op[3] is None else (str(op[3]) if op[2] == "size" else sh_shape(op[3]))
+        return f"mut@{op[4]}:{sh_key(ret, op[1])}:{op[2]}:{arg}"
     if k in ("deld", "delda"):
         return k
     if k == "setda":
@@ -385,7 +568,7 @@ def enc_op(op, ret):
     if k == "replace":
         return ":".join(["replace", sh_key(ret, op[1]), sh_con(ret, op[2], None, op[3], sort=False), sh_optkeys(ret, op[4])])
     if k == "copy":
-        return "copy"
+        return "copy" if not op[1] else f"copy@{op[1]}"
     if k == "sub":
         return "sub:" + ("+".join(f"{a}-{b}" for a, b in op[1]) or "n")
     idx = lambda l: "_" if l is None else ("+".join(str(i) for i in l) or "n")
@@ -447,6 +630,14 @@ def dec_op(s, ret, types=None):
         return ("delc", p[1], _key(ret, p[2]))
     if k == "setd":
         return ("setd", _shape(p[1]), _optkeys(ret, p[2]))
+    if k == "setdn":
+        return ("setdn", _shape(p[1]), _optkeys(ret, p[2]))
+    if k.startswith("frame"):
+        return ("frame", int(k.split("@")[1]) if "@" in k else 0)
+    if k.startswith("mut"):
+        how = int(k.split("@")[1]) if "@" in k else 0
+        arg = None if p[3] == "_" else (int(p[3]) if p[2] == "size" else _shape(p[3]))
+        return ("mut", _key(ret, p[1]), p[2], arg, how)
     if k in ("deld", "delda"):
         return (k,)
     if k == "setda":
@@ -458,8 +649,8 @@ def dec_op(s, ret, types=None):
     if k == "replace":
         t, c = dec_con(ret, p[2])
         return ("replace", _key(ret, p[1]), t, c, _optkeys(ret, p[3]))
-    if k == "copy":
-        return ("copy", 0)
+    if k.startswith("copy"):
+        return ("copy", int(k.split("@")[1]) if "@" in k else 0)
     if k == "sub":
         return ("sub", [] if p[1] == "n" else [tuple(int(x) for x in q.split("-")) for q in p[1].split("+")])
     if k == "squeeze":
@@ -473,8 +664,212 @@ def dec_op(s, ret, types=None):
     raise fw.HarnessError("cannot decode " + s)
 
 
+# ------------------------------------------------------------------ targeted families
+def targeted(rng, st, akeys, size, sized, arr, tof, cms):
+    """Families aimed at single guards / at the order of guard and write (about 1 call in 5); None = no family applies."""
+    cons, types, axes, data, daxes = st["cons"], st["types"], st["axes"], st["data"], st["daxes"]
+    q = rng.random()
+    if q > 0.24:
+        return None
+    hidden = sorted(k for (t, k) in cons if t in ("fan", "cm"))
+    plain = [k for k in arr if tof[k] in ("dim", "aux", "msr", "fan", "dan") and not cons[(tof[k], k)]["geom"]
+             and cons[(tof[k], k)]["ring"] is None]
+
+    def sizes_of(ax):
+        return [size.get(a) or 1 for a in ax]
+
+    def spoil(shape):
+        """a shape that must be refused for axes of sizes `shape`"""
+        shape = list(shape)
+        w = rng.random()
+        if w < 0.25 and len(shape) >= 2 and shape != shape[::-1]:
+            return shape[::-1]  # transposed
+        if w < 0.45:
+            return shape + [1]  # the shape before a squeeze
+        if w < 0.6 and 1 in shape:
+            shape.remove(1)  # the shape after a squeeze (the axes are still there)
+            return shape
+        if w < 0.75 and shape:
+            return shape[:-1] if len(shape) > 1 or rng.random() < 0.5 else [shape[0] + 1]
+        if shape:
+            i = rng.randrange(len(shape))
+            shape[i] += rng.choice([1, 2])
+            return shape
+        return [2]
+
+    if q < 0.07 and sized:
+        # ---- set_data (in place or not) / set_data_axes that must be refused, or just fit
+        kind = "setdn" if rng.random() < 0.4 else "setd"
+        old = list(daxes) if daxes is not None else None
+        new = rng.sample(sized, rng.randint(1, min(3, len(sized))))
+        w = rng.random()
+        if w < 0.22 and old is not None and all(a in size for a in old):
+            return (kind, tuple(spoil(sizes_of(old))), None)  # axes=None on a field with data axes, unfitting shape
+        if w < 0.34 and old is not None and all(a in size for a in old):
+            return (kind, tuple(sizes_of(old)), None)  # ... fitting
+        if w < 0.50 and old is not None and all(a in size for a in old) and sizes_of(old) != sizes_of(new):
+            return (kind, tuple(sizes_of(old)), new)  # fits the old axes, not the new ones
+        if w < 0.66:
+            return (kind, tuple(spoil(sizes_of(new))), new)  # fits neither (or only by accident)
+        if w < 0.74 and len(new) >= 2:
+            return (kind, tuple(sizes_of(new)), new[::-1])  # axes transposed against the shape
+        if w < 0.80:
+            return (kind, tuple(sizes_of(new) + [1]), new + [rng.choice(["domainaxis55", "domainaxis5"])])  # unknown axis
+        if w < 0.90 and data is not None:
+            # set_data_axes against the existing data
+            fit = []
+            for n in data:
+                cand = [a for a in sized if size[a] == n]
+                if not cand:
+                    break
+                fit.append(rng.choice(cand))
+            if len(fit) == len(data) and rng.random() < 0.5:
+                return ("setda", fit)
+            ax = new if sizes_of(new) != list(data) else new + [rng.choice(sized)]
+            return ("setda", ax[::-1] if rng.random() < 0.3 else ax)
+        return (kind, tuple(sizes_of(new)), new)  # accepted
+    if q < 0.115 and akeys:
+        # ---- through a live view: what the view hides, and the guards that must look beneath it
+        via = rng.choice(VIEWS)
+        w = rng.random()
+        if w < 0.25 and hidden and sized:
+            # an identifier that a hidden construct uses, for a construct of a visible type
+            a = rng.choice(sized)
+            t = rng.choice(["aux", "dim", "dan", "msr"])
+            return ("setc", via, t, blank(data=(size[a],)), rng.choice(hidden), [a])
+        if w < 0.33 and hidden:
+            return ("setc", via, "axis", blank(size=rng.randint(1, 4)), rng.choice(hidden), None)
+        if w < 0.45 and sized:
+            # a construct of a hidden type
+            a = rng.choice(sized)
+            if rng.random() < 0.5:
+                return ("setc", via, "fan", blank(data=(size[a],)), None, [a])
+            return ("setc", via, "cm", blank(cmaxes=[a]), None, None)
+        if w < 0.60 and hidden:
+            k = rng.choice(hidden)
+            z = rng.random()
+            if z < 0.5:
+                return ("delc", via, k)
+            if z < 0.75 or not sized:
+                return ("deldak", via, k)
+            shp = con_shape(tof[k], cons[(tof[k], k)]) or ()
+            fit = [next((a for a in sized if size[a] == n), sized[0]) for n in shp]
+            return ("setdak", via, fit, k)
+        # an axis that only something hidden / the field's data still uses
+        by_hidden = [a for a in akeys if any(a in axes.get(k, ()) for k in hidden if tof[k] == "fan")
+                     or any(a in cons[("cm", k)]["cmaxes"] for k in cms)]
+        by_data = [a for a in akeys if daxes is not None and a in daxes]
+        pool = by_hidden if by_hidden and rng.random() < 0.6 else (by_data or akeys)
+        return ("delc", via, rng.choice(pool))
+    if q < 0.16 and (plain or akeys):
+        # ---- a mutator called on a contained construct (shape-preserving most of the time)
+        how = rng.randrange(5)
+        if akeys and (not plain or rng.random() < 0.2):
+            k = rng.choice(akeys)
+            n = size.get(k)
+            spanned = any(k in l for l in axes.values()) or (daxes is not None and k in daxes)
+            return ("mut", k, "size", n if (n is not None and spanned and rng.random() > 0.07 * RISK) else rng.randint(1, 4), how)
+        k = rng.choice(plain)
+        t = tof[k]
+        c = cons[(t, k)]
+        shp = c["data"]
+        w = rng.random()
+        if w < 0.45:
+            fit = tuple(size[a] for a in axes[k]) if k in axes and all(size.get(a) for a in axes[k]) else None
+            new = shp if shp is not None else (con_shape(t, c) or fit or (rng.randint(1, 3),))
+            if t == "dim" and len(new) != 1:
+                new = (rng.randint(1, 3),)
+            if rng.random() < 0.06 * RISK:
+                new = tuple(new) + (2,) if rng.random() < 0.5 else tuple(n + 1 for n in new) or (2,)
+            return ("mut", k, "data", tuple(new), how)
+        if w < 0.6:
+            return ("mut", k, "deldata", None, how)
+        if w < 0.85 and t in ("dim", "aux", "dan"):
+            base = shp if shp is not None else (con_shape(t, c) or (rng.randint(1, 3),))
+            b = tuple(base) + (rng.choice([2, 4]),)
+            if rng.random() < 0.2:
+                b = tuple(n + 1 for n in base) + (2,) if base and rng.random() < 0.6 else tuple(base)
+            return ("mut", k, "bounds", b, how)
+        return ("mut", k, "delbounds", None, how)
+    if q < 0.18:
+        return ("frame", rng.randrange(5))
+    if q >= 0.205:
+        # ---- convert(full_domain=True) that has to carry a coordinate reference and its domain ancillaries over:
+        # one step of the chain  coordinate -> domain ancillary on its axes -> reference naming both -> convert
+        coords = sorted(k for (t, k) in cons if t in ("dim", "aux") and k in axes and axes[k])
+        dans = sorted(k for (t, k) in cons if t == "dan" and k in axes)
+        for (t, k), c in sorted(cons.items()):
+            if t != "ref" or not c["coords"] or not any(v for _, v in c["ancils"]):
+                continue
+            need = set()
+            ok = True
+            for v in [v for _, v in c["ancils"]]:
+                if v is None or v not in axes:
+                    ok = False
+                    break
+                need |= set(axes[v])
+            hit = [x for x in c["coords"] if x in axes]
+            if not ok or not hit:
+                continue
+            for kk in arr:
+                if tof[kk] in ("top", "con") or cons[(tof[kk], kk)]["data"] is None or kk not in axes:
+                    continue
+                if need <= set(axes[kk]) and any(set(axes[x]) <= set(axes[kk]) for x in hit):
+                    return ("convert", kk, True)
+        pair = [(x, y) for x in coords for y in dans if set(axes[y]) <= set(axes[x])]
+        if pair:
+            x, y = rng.choice(pair)
+            return ("setc", "f", "ref", blank(coords=[x], ancils=[("a", y)] + ([("b", y)] if rng.random() < 0.4 else [])), None, None)
+        if coords:
+            x = rng.choice(coords)
+            if all(a in size and size[a] is not None for a in axes[x]):
+                return ("setc", "f", "dan", blank(data=tuple(size[a] for a in axes[x])), None, list(axes[x]))
+        return None
+    if data is not None and daxes is not None:
+        # ---- in place AND constructs=True
+        nd = len(data)
+        if rng.random() < 0.5:
+            perm = list(range(nd))
+            rng.shuffle(perm)
+            return ("transpose", None if rng.random() < 0.3 else perm, True, True)
+        ones = [k for k in sized if size[k] == 1 and k not in daxes]
+        ax = rng.choice(ones) if ones and rng.random() < 0.5 else None
+        if any(t in ("top", "con") and c["data"] is not None for (t, _), c in cons.items()) and rng.random() > 0.5 * RISK:
+            # on a mesh the in-place call with constructs is the open finding: keep it a small fraction
+            return ("insdim", ax, rng.randint(0, nd), True, False)
+        return ("insdim", ax, rng.randint(0, nd), True, True)
+    return None
+
+
 # ------------------------------------------------------------------ generator of one op from the abstract state
-def gen_op(rng, st, bad_p=0.25):
+def gen_op(rng, st, bad_p=0.25, domain=False):
+    op = _gen_op(rng, st, bad_p)
+    if domain:
+        # a stand-alone domain offers the container calls only; in the model they are calls through a view
+        # (no cell methods, no field ancillaries, no field data) on a state that has nothing hidden
+        for _ in range(50):
+            if op[0] in DOMAIN_OPS:
+                break
+            op = _gen_op(rng, st, bad_p)
+        else:
+            op = ("copy", 0)
+        if op[0] in ("setc", "delc", "setdak", "deldak") and op[1] == "f":
+            op = (op[0], "d") + op[2:]
+        if op[0] == "setc" and op[2] not in ("fan", "cm") and rng.random() < 0.05 and st["cons"]:
+            # a construct of a type that a domain cannot hold, with and without an identifier
+            a = next((k for (t, k), c in sorted(st["cons"].items()) if t == "axis" and c["size"]), None)
+            if a is not None:
+                if rng.random() < 0.5:
+                    op = ("setc", op[1], "cm", blank(cmaxes=[a]), rng.choice([None, None, None, "cellmethod7"]), None)
+                else:
+                    op = ("setc", op[1], "fan", blank(data=(st["cons"][("axis", a)]["size"],)), rng.choice([None, None, "fieldancillary7"]), [a])
+    if op[0] == "setc" and op[4] is None and rng.random() < 0.06 * (0.4 + 0.6 * RISK):
+        # an identifier that is not of the form <letters><number>
+        op = op[:4] + (rng.choice(NONSTD),) + op[5:]
+    return op
+
+
+def _gen_op(rng, st, bad_p=0.25):
     cons, types, axes, data, daxes = st["cons"], st["types"], st["axes"], st["data"], st["daxes"]
     akeys = sorted(k for (t, k) in cons if t == "axis")
     size = {k: cons[("axis", k)]["size"] for k in akeys}
@@ -484,7 +879,10 @@ def gen_op(rng, st, bad_p=0.25):
     cms = sorted(k for (t, k) in cons if t == "cm")
     refs = sorted(k for (t, k) in cons if t == "ref")
     bad = rng.random() < bad_p
-    via = "d" if rng.random() < 0.25 else "f"
+    via = rng.choice(VIEWS) if rng.random() < 0.25 else "f"
+    fam = targeted(rng, st, akeys, size, sized, arr, tof, cms)
+    if fam is not None:
+        return fam
     r = rng.random()
 
     def pick_axes(nmax=3):
@@ -514,7 +912,7 @@ def gen_op(rng, st, bad_p=0.25):
             q = rng.random()
             if bad and akeys and q < 0.45:
                 key = rng.choice(akeys)  # replace an existing axis (possibly changing its size)
-                n = rng.choice([size[key]] * 5 + [rng.randint(1, 4)]) if size[key] else rng.randint(1, 4)
+                n = size[key] if size[key] and rng.random() > 0.17 * RISK else rng.randint(1, 4)
                 return ("setc", via, "axis", blank(size=n), key, None)
             if bad and arr and q < 0.6:
                 key = rng.choice(arr)  # key of another type
@@ -527,7 +925,7 @@ def gen_op(rng, st, bad_p=0.25):
             ax = pick_axes(2)
             if rng.random() < 0.2:
                 ax = ax + [rng.choice(["area", "time"])]
-            if bad and rng.random() < 0.12:
+            if bad and rng.random() < 0.12 * RISK:
                 ax = ax + [f"domainaxis{rng.choice([9, 99])}"]
             key = rng.choice(cms) if cms and rng.random() < 0.2 else None
             return ("setc", via, "cm", blank(cmaxes=ax), key, ["domainaxis0"] if bad and rng.random() < 0.1 else None)
@@ -548,9 +946,9 @@ def gen_op(rng, st, bad_p=0.25):
                 rng.shuffle(vals)
             if rng.random() < 0.15:
                 vals = vals + [None]
-            if bad and rng.random() < 0.1:
+            if bad and rng.random() < 0.1 * RISK:
                 co = co + [rng.choice(["auxiliarycoordinate99"] + sorted(k for (tt, k) in cons if tt in ("msr", "axis")))]
-            if bad and rng.random() < 0.05:
+            if bad and rng.random() < 0.05 * RISK:
                 vals = vals + ["domainancillary99"]
             names = rng.sample(["a", "b", "orog", "sigma", "eta", "depth", "zlev"], len(vals))
             key = rng.choice(refs) if refs and rng.random() < 0.2 else None
@@ -676,15 +1074,15 @@ def gen_op(rng, st, bad_p=0.25):
         ax = None
         if bad:
             q = rng.random()
-            if q < 0.15 and shp:
+            if q < 0.15 * RISK and shp:
                 c = blank(data=tuple(n + 1 for n in shp))
-            elif q < 0.3:
+            elif q < 0.3 * RISK:
                 ax = pick_axes(2) + ["domainaxis33"]
             else:
                 key = "auxiliarycoordinate99"
         return ("replace", key, t, c, ax)
     if r < 0.73:
-        return ("copy", rng.randint(0, 1))
+        return ("copy", rng.randint(0, 2))
     if r < 0.80 and data is not None and daxes is not None:
         ix = []
         for n in data:
@@ -727,10 +1125,18 @@ def gen_op(rng, st, bad_p=0.25):
 
 
 # ------------------------------------------------------------------ cases
+DOMAIN_OPS = ("setc", "delc", "setdak", "deldak", "replace", "copy", "mut", "frame")
+
+
 def start_field(which, hseed):
     C = cfdm()
     if which == "empty":
         return C.Field()
+    if which == "dom:e":
+        return C.Domain()
+    if which.startswith("dom:"):
+        # a stand-alone domain: the copy of a field's domain
+        return C.example_field(int(which[4:])).domain.copy()
     if which == "random":
         from ..gen import fields
         return fields.random_field(fw.rng_for(hseed, "start"), allow=("dim", "aux", "aux2d", "scalar", "msr", "fan", "cm", "gm", "ft", "bounds", "dan"))
@@ -740,13 +1146,36 @@ def start_field(which, hseed):
 def gen(rng, tier, n):
     maxlen = 14 if tier == "quick" else 40
     for _ in range(n):
-        start = rng.choice(["empty", "empty", "empty", "0", "1", "2", "3", "5", "6", "7", "random", "random", "random"])
+        start = rng.choice(["empty", "empty", "empty", "0", "1", "2", "3", "5", "6", "7", "8", "9", "10",
+                            "random", "random", "random", "dom:e", "dom:1", rng.choice(["dom:0", "dom:2", "dom:6", "dom:7", "dom:8"])])
         yield Case("C02.hist", dict(start=start, hseed=rng.randrange(1 << 40), length=rng.randint(4, maxlen)), None,
                    tags=["start:" + start])
 
 
 def from_payload(stream, payload):
     return Case("C02.hist", dict(payload), None)
+
+
+INPLACE_DERIVING = ("squeeze", "transpose", "insdim")
+NEW_OBJECT = ("copy", "sub", "convert", "setdn", "squeeze", "transpose", "insdim")
+
+
+def in_place(op):
+    return op[0] in INPLACE_DERIVING and bool(op[-1])
+
+
+def order_dependent(op):
+    """in place and with constructs=True: what a rejected call leaves depends on the order of the dictionaries"""
+    return (op[0] == "transpose" and op[2] and op[3]) or (op[0] == "insdim" and op[3] and op[4])
+
+
+def objects(f):
+    """the construct objects and the data object that the field holds (kept alive, compared with `is`)"""
+    return dict(f.constructs.todict()), (None if is_domain(f) else f.get_data(None))
+
+
+def same_objects(a, b):
+    return set(a[0]) == set(b[0]) and all(a[0][k] is b[0][k] for k in a[0]) and a[1] is b[1]
 
 
 def impl(c):
@@ -762,6 +1191,8 @@ def impl(c):
     fail = None
     accepted = 0
     n = len(fixed) if fixed is not None else p["length"]
+    global RISK
+    RISK = min(1.0, 9.0 / max(1, n))
     tags = []
     before = None
     for i in range(n):
@@ -769,16 +1200,19 @@ def impl(c):
             text = fixed[i]
             op = dec_op(text, ret)
         else:
-            op = gen_op(rng, st)
+            op = gen_op(rng, st, domain=is_domain(f))
             text = enc_op(op, ret)
             op = dec_op(text, ret)
         before = st
+        receiver = f
+        held = objects(f)
         f, res, key, exc = apply_op(f, op)
         ret.append(key)
         done.append(text)
-        if res == "ok" and op[0] != "copy":
+        if res == "ok" and op[0] not in ("copy", "frame"):
             accepted += 1
-        tags.append(("op:" if res == "ok" else "rej:") + op[0] + (":d" if len(op) > 1 and op[1] == "d" else ""))
+        tags.append(("op:" if res == "ok" else "rej:") + op[0] + (":v" if len(op) > 1 and op[1] in VIEWS else "")
+                    + (":ip" if in_place(op) else "") + (":cs+ip" if order_dependent(op) else ""))
         bad = invariant(f)
         try:
             st = abstract(f)
@@ -786,10 +1220,28 @@ def impl(c):
         except Exception as e:
             s = "unabstractable:" + type(e).__name__
             bad = bad or ("the state cannot be inspected: " + repr(e)[:100])
-        lines.append(f"{res}@{'0' if bad else '1'}@{s}")
+        if not bad:
+            # a rejected call, and the receiver of a call that returns a new field, must be literally unchanged
+            # (a rejected in-place deriving call too, unless its first statement creates the new axis or it
+            # walks the constructs: C02_rejected_unchanged, C02_inplace_rejected_unchanged)
+            if ((res == "rej" and not order_dependent(op) and not (in_place(op) and op[0] == "insdim" and op[1] is None))
+                    or (op[0] in NEW_OBJECT and not in_place(op)) or op[0] == "frame"):
+                try:
+                    now = sh_state(ret[:-1], abstract(receiver))
+                    was = sh_state(ret[:-1], before)
+                    if now != was:
+                        bad = f"the receiver of a {'rejected' if res == 'rej' else 'non-in-place'} call changed: {was} -> {now}"
+                    elif not same_objects(held, objects(receiver)):
+                        bad = f"the receiver of a {'rejected' if res == 'rej' else 'non-in-place'} call holds other construct / data objects than before"
+                except Exception as e:
+                    bad = "the receiver cannot be inspected after the call: " + repr(e)[:100]
+        stop = order_dependent(op) and res == "rej"
+        lines.append(f"{res}@{'0' if bad else '1'}@{'~' if stop else s}")
         if bad:
             fail = dict(step=i, op=text, kind=op[0], result=res, exc=exc, problem=bad,
                         sig=signature(op, res, before, st if isinstance(st, dict) else None, bad))
+            break
+        if stop:
             break
     c.payload["ops"] = done
     c.line = f"C02.hist init={init} ops={';'.join(done) or '-'}"
@@ -810,12 +1262,41 @@ def _model(c):
     return out
 
 
-def agree(c):
-    """implementation trace == trace of the model of the patched container"""
+# findings that the model cannot see (how the formatters spell names is outside the abstract state): the
+# states and outcomes of the whole history must still be the model's, the invariant flag is the oracle's alone
+MODEL_BLIND = ("identifier-without-number-shares-name:str-dump-IndexError",)
+# findings whose damage is the state left by the LAST (rejected) call: every earlier step must be the model's,
+# of the last step only the outcome
+LAST_STATE_BLIND = ("domain-copy-set_construct-hidden-type-with-key:KeyError-after-registering-the-key",)
+
+
+def _noinv(step):
+    """a step of a trace without its invariant flag"""
+    return re.sub(r"^(ok|rej)@[01]@", r"\1@", step)
+
+
+def agree(c, noinv=False, lastblind=False):
+    """implementation trace == trace of the model of the container at HEAD.  The state after a rejected
+    in-place call with constructs=True (`~`) is outside the model: only the outcome is compared."""
     m = _model(c)
     if m.get("I") != "1":
         return False
-    return c.impl_out == m.get("P")
+    a, b = (c.impl_out or "").split(";;"), (m.get("P") or "").split(";;")
+    if noinv:
+        a, b = [_noinv(x) for x in a], [_noinv(x) for x in b]
+    if lastblind and a and b and len(a) == len(b):
+        if a[-1].split("@")[0] != b[-1].split("@")[0]:
+            return False
+        a, b = a[:-1], b[:-1]
+    if len(a) != len(b):
+        return False
+    for x, y in zip(a, b):
+        if y == "rej@~@~":
+            if not (x.startswith("rej@") and x.endswith("@~")):
+                return False
+        elif x != y:
+            return False
+    return True
 
 
 def oracle(c):
@@ -830,8 +1311,25 @@ def signature(op, res, st, after, problem):
     """Signature of a failing operation, from the operation and the states before and after it."""
     cons, types, axes, data, daxes = st["cons"], st["types"], st["axes"], st["data"], st["daxes"]
     kind = op[0]
+    if (res == "ok" and after is not None and "raised IndexError" in problem and problem.split(" ")[0] in ("repr", "str", "dump", "repr(domain)", "str(domain)", "dump(domain)")
+            and any(not re.search(r"[0-9]$", k) for (_, k) in after["cons"])):
+        # the formatters tell constructs of one name apart by the number at the end of the identifier
+        return "identifier-without-number-shares-name:str-dump-IndexError"
+    if (res != "ok" and kind == "setc" and op[2] in ("fan", "cm") and op[4] is not None and op[4] not in types
+            and ("registered keys differ" in problem or "data axes recorded for non-existent construct" in problem
+                 or "rejected call changed" in problem)
+            and not any(t in ("fan", "cm") for t in types.values())):
+        # a copy of a domain knows the construct types `cell_method` / `field_ancillary` but has no dictionary for them
+        return "domain-copy-set_construct-hidden-type-with-key:KeyError-after-registering-the-key"
     if res != "ok":
+        # a rejected in-place insert_dimension(constructs=True) on a field with a domain topology / cell
+        # connectivity that has data: the construct was reshaped before its new axes were refused
+        if (kind == "insdim" and op[3] and op[4] and "shape" in problem and "sizes of its axes" in problem
+                and any(t in ("top", "con") and c["data"] is not None and k in axes for (t, k), c in cons.items())):
+            return "insert_dimension-inplace-constructs-rejected-half-way-on-topology"
         return None
+    if kind == "mut":
+        return "direct-mutation-of-contained-construct"
     twice = after is not None and len({k for (_, k) in after["cons"]}) < len(after["cons"])
     if twice and ((kind == "setc" and op[4] is None) or (kind == "insdim" and op[1] is None)):
         return "new_identifier-returns-key-of-another-type"
@@ -862,21 +1360,15 @@ def classify(c):
     f = c.extra.get("fail") if isinstance(c.extra, dict) else None
     if not f:
         return None
+    # not a listed finding: group the violations of one run by kind of call and kind of damage
+    unlisted = "unlisted:" + f["kind"] + ":" + re.sub(r"term \S+|[a-z]+[0-9]+|[0-9]+|\(.*?\)", "#", f["problem"])[:60].strip().replace(" ", "-")
     if not f.get("sig"):
-        # not a listed finding: group the violations of one run by kind of call and kind of damage
-        return "unlisted:" + f["kind"] + ":" + re.sub(r"term \S+|[a-z]+[0-9]+|[0-9]+|\(.*?\)", "#", f["problem"])[:60].strip().replace(" ", "-")
+        return unlisted
     # a known finding is only recognised when the whole observed trace is what the model of the container
-    # AS CODED produces for this history (so any other deviation is still reported)
-    m = _model(c)
-    if c.model_out is not None and _noinv(c.impl_out) != _noinv(m.get("O")) and c.impl_out != m.get("P"):
-        return None
+    # at HEAD produces for this history (so any other deviation is still reported)
+    if c.model_out is not None and not agree(c, noinv=f["sig"] in MODEL_BLIND, lastblind=f["sig"] in LAST_STATE_BLIND):
+        return unlisted
     return f["sig"]
-
-
-def _noinv(trace):
-    """the trace without the invariant flags (the model of the code as it is also tracks the private copy
-    `Constructs._field_data_axes`, which `Field.del_data_axes()` leaves stale and the oracle cannot see)"""
-    return None if trace is None else re.sub(r"(ok|rej)@[01]@", r"\1@", trace)
 
 
 def shrink(c, run):
